@@ -480,7 +480,7 @@ def gen_stall(rng):
     else:
         after = rng.randrange(1, 10)
         sim["silent_after"] = after
-        n = rng.choice([3, 30])
+        n = rng.choice([3, 30, 200])
         if kind == "flood_foreign":
             raws = [pkt(b"WRTE", 5000 + j, 70000, b"noise") for j in range(n)]
         else:
